@@ -1,0 +1,14 @@
+//go:build verif
+// +build verif
+
+package scan
+
+import "math/big"
+
+// VerifRangeIteratorAt builds an iterator in a given state (group P, randomised generator G,
+// current element I, start element, range limit), so that the harness can drive Next from states
+// that the constructor reaches only for rare values of the random source.  Add-only, no behaviour change.
+func VerifRangeIteratorAt(p, g, i, startI, limit int64) *VerifRangeIterator {
+	return &VerifRangeIterator{&rangeIterator{P: big.NewInt(p), G: big.NewInt(g), I: big.NewInt(i),
+		startI: big.NewInt(startI), rangeLimit: big.NewInt(limit)}}
+}
